@@ -252,6 +252,8 @@ struct channel_data {
 		int active;	/* Current active parameterized macro */
 		int finalvol;	/* Previous tick calculated volume (0-0x400) */
 		int notepan;	/* Previous tick note panning (0x80 center) */
+		int finalpan;	/* Previous tick calculated panning (0x80 center),
+				 * before the output's stereo separation */
 	} macro;
 #endif
 
